@@ -269,6 +269,8 @@ func c18(r *ev.Result, tier string) {
 		`'$(touch CANARY)'`, `"; touch CANARY; "`, `'\''; touch CANARY #`, `x' 'y`, `x'`, `'`, `''`, `'''`,
 		`\\'`, `a\'; touch CANARY; echo \'`, "x\\", `$HOME`, `~`, `*`, `{a,b}`, `a;b`, `a&&b`, `a|b`, `>CANARY`, `<CANARY`,
 		`'>CANARY'`, `\n`, `%s%d`, `-n`, `-e \x41`,
+		/* white space inside: runs of blanks, a no-break space, a CR */
+		`x  y`, `a   b  c    d`, "nb\u00a0sp word", "cr\rinside here",
 	} {
 		cases = append(cases,
 			c18Case{Lines: []string{" " + b}, Class: "breaker-name"},
